@@ -38,9 +38,11 @@ def cases(draw, tier):
                            cfg_pool=pool, allow_skip=False,
                            regex_pool=R.regex_alphabet(names)))
   n = draw(st.integers(1, 2))
-  return {'model': mspec, 'recipe': {'kind': 'rules', 'rules': rules},
+  case = {'model': mspec, 'recipe': {'kind': 'rules', 'rules': rules},
           'calib_seeds': [draw(st.integers(0, 999)) for _ in range(n)],
           'input_seed': 0}
+  draw(engine.usage_dimensions(case))
+  return case
 
 
 def expected_keys(case, out):
